@@ -23,7 +23,7 @@ from __future__ import annotations
 import ast
 import builtins
 
-from ..core import RuleResult, finding, short, walk_no_nested
+from ..core import table_lookup, RuleResult, finding, short, walk_no_nested
 from ..model import ClassInfo, FuncInfo, Module, Project, norm
 from .util import cfg_of, node_exprs
 
@@ -223,8 +223,8 @@ class ExcEngine:
                 if any(self.is_sub(exc, t) for t in g):
                     return
             e = Esc(exc, why, file or fi.relpath, line or getattr(node, "lineno", fi.lineno), via, cond)
-            ikey = f"{short(fi)}:{exc}:{norm(node, 100)}" if node is not None else None
-            if ikey and ikey in self.infeasible:
+            ikey = table_lookup(self.infeasible, f"{short(fi)}:{exc}:", node, fi.module) if node is not None else None
+            if ikey:
                 note = f"{ikey} - {self.infeasible[ikey]}"
                 if note not in self.infeasible_used:
                     self.infeasible_used.append(note)
